@@ -7,7 +7,7 @@ namespace Fcp
 
 /-! ## encode -/
 
-theorem pyEncChars_rep (cs : List Nat) (hcs : cs.all (· < 128) = true) {b : Buf} {B : Bits}
+theorem pyEncChars_rep (cs : List Nat) (hcs : cs.all (· < 256) = true) {b : Buf} {B : Bits}
     (h : BufRep b B) : ∃ b', pyEncChars cs b = .ok b' ∧ BufRep b' (B ++ encChars cs) := by
   induction cs generalizing b B with
   | nil => exact ⟨b, rfl, by simpa [encChars] using h⟩
@@ -137,7 +137,7 @@ theorem pyEnc_refines (S : Schema) : ∀ (f : Nat) (t : STy) (ty : Ty) (v : Val)
         simp only [wf, Bool.and_eq_true, decide_eq_true_eq] at hv
         obtain ⟨b1, h1, r1⟩ := pushWord_rep hb (cs.length : Int) 32
         rw [natCast_toTwos 32 cs.length hv.1] at r1
-        obtain ⟨b2, h2, r2⟩ := pyEncChars_rep cs hv.2 r1
+        obtain ⟨b2, h2, r2⟩ := pyEncChars_rep cs (utf8Valid_bytes cs hv.2) r1
         refine ⟨b2, ?_, ?_⟩
         · simp only [pyEnc, h1, bind, Except.bind]; exact h2
         · simpa [enc, List.append_assoc] using r2
@@ -416,7 +416,7 @@ theorem pyDec_refines (S : Schema) : ∀ (f : Nat) (t : STy) (ty : Ty) (b : Buf)
           rw [hc] at h2
           obtain ⟨m, hm, hr2⟩ := h2
           simp only [hm]
-          by_cases hall : cs.all (· < 128) = true
+          by_cases hall : utf8Valid cs = true
           · simp only [hall, ↓reduceIte]
             refine ⟨n + m, by simp [Nat.add_assoc], ?_⟩
             rw [hr2, bits_advance, List.drop_drop]
